@@ -33,7 +33,9 @@ NoBoCfgs == {}
 \* classes of concrete backoff inputs the harness draws on the real code (values beyond TLC's integers are strings)
 BoTable == [base |-> {"zero", "small", "max"}, mult |-> {"1", "1.5", "3", "1e308"}, jit |-> {"0", "0.2", "1"}, max |-> {"15s", "1ms"},
             attempts |-> {"0", "1", "2", "10", "63", "64", "1023", "1024", "2147483648", "4294967295"}]
-ASSUME PrintT(<<"BOT", ToJson(BoTable)>>)
+\* ... and the bounded backoff model itself (unit = 1 ms, jitter in tenths), replayed as well
+BoModel == [cfgs |-> BoCfgs, attempts |-> BoAttempts]
+ASSUME PrintT(<<"BOT", ToJson([classes |-> BoTable, model |-> BoModel])>>)
 
 EmitCase == (pc = "new") => PrintT(<<"CASE", ToJson([eps |-> eps, bundle |-> bundle])>>)
 =============================================================================
